@@ -106,3 +106,52 @@ for _u in UNITS:
         _u['selftest'] = [('__gmpz_tdiv_qr', r'if \(dp == rp \|\| dp == qp\)', 'if (dp == qp)'), ('__gmpz_tdiv_qr', r'ql -= +qp\[ql - 1\] == 0;', ';')]
     if _u['name'] == 'mpz_tdiv_qr_nq':
         _u['selftest'] = [('__gmpz_tdiv_qr', r'if \(np == rp \|\| np == qp\)', 'if (np == rp)')]
+
+# ------------------------------------------------------------------ mpz_tdiv_r (same glue, quotient in temporary space)
+TR_CONTRACT = '''_Bool g_div0_expected;
+void __gmp_divide_by_zero (void) { __CPROVER_assert (g_div0_expected, "[C02] DIVIDE_BY_ZERO is raised only when the divisor is zero"); __CPROVER_assume (0); }
+void __gmpz_tdiv_r (mpz_ptr rem, mpz_srcptr num, mpz_srcptr den)
+__CPROVER_requires (V_WF (rem) && V_WF (num) && V_WF (den) && V_GHOSTS_OK)
+__CPROVER_assigns (*rem, __CPROVER_object_whole (V_PTR (rem)), g_div_calls, g_dnum, g_dden, g_dnn, g_ddn, __CPROVER_alloca_object)
+__CPROVER_frees (V_PTR (rem))
+__CPROVER_ensures (V_WF_AT (rem, gk));
+'''
+TR_H = '''void *__gmp_tmp_reentrant_alloc (struct tmp_reentrant_t **m, size_t n) { void *q = malloc (n); __CPROVER_assume (q != (void *) 0); return q; }
+void __gmp_tmp_reentrant_free (struct tmp_reentrant_t *m) { }
+void h_mpz_tdiv_r (void) {
+%(R)s%(N)s%(D)s  mpz_ptr r = &R; mpz_srcptr n = &N, d = &D;
+ALIASBLOCK
+  gk = nondet_long (); gj = nondet_long (); gh = nondet_long ();
+  __CPROVER_assume (V_GHOSTS_OK && V_WF (r) && V_WF (n) && V_WF (d));
+  long ns = V_SIZ (n), ds = V_SIZ (d), nl = V_ABS (ns), dl = V_ABS (ds);
+  __CPROVER_assume (gh == (dl > 0 ? dl - 1 : 0));
+  mp_limb_t Nk = gk < nl ? V_PTR (n)[gk] : 0, Dj = gj < dl ? V_PTR (d)[gj] : 0, Dk = gk < dl ? V_PTR (d)[gk] : 0;
+  g_div0_expected = (dl == 0); g_div_calls = 0;
+  __gmpz_tdiv_r (r, n, d);
+  __CPROVER_assert (dl != 0, "[C02] returned normally, so the divisor was not zero");
+  long rs = V_SIZ (r);
+  if (nl < dl)
+    __CPROVER_assert (g_div_calls == 0 && rs == ns && (gk < nl ==> V_PTR (r)[gk] == Nk), "[C02][C05] |n| < |d| by size: remainder is n, limb for limb, without dividing");
+  else
+    {
+      __CPROVER_assert (g_div_calls == 1 && g_dnn == nl && g_ddn == dl && g_dnum == Nk && g_dden == Dj, "[C02][C05] one division of the original limbs of n by those of d");
+      __CPROVER_assert (V_ABS (rs) <= dl && (rs == 0 || (rs < 0) == (ns < 0)), "[C02] remainder: at most dl limbs, sign of the dividend");
+    }
+  if (n != r) __CPROVER_assert ((long) V_SIZ (n) == ns && (gk < nl ==> V_PTR (n)[gk] == Nk), "[C05] dividend (not the output) unchanged");
+  if (d != r) __CPROVER_assert ((long) V_SIZ (d) == ds && (gk < dl ==> V_PTR (d)[gk] == Dk), "[C05] divisor (not the output) unchanged");
+}'''
+_tr = dict(name='mpz_tdiv_r', props=['C02', 'C04', 'C05', 'C15'], source='mpz/tdiv_r.c', contracts=['mpn.h', 'mpz.h', 'div_assumed.h'], contract_text=TR_CONTRACT,
+           enforce=['__gmpz_tdiv_r'], replace=['__gmpz_realloc', '__gmpn_tdiv_qr'],
+           functions={'__gmpz_tdiv_r': dict(loops={0: copy_loop(['gk', 'gj']), 1: copy_loop(['gk', 'gj']), 2: copy_loop(['gk', 'gj']), 3: norm_loop('rp', 'dl', 'gk')})},
+           assumptions=_tq['assumptions'], harness=TR_H % dict(R=mpz_obj('R'), N=mpz_obj('N'), D=mpz_obj('D')), timeout=1500, tier='thorough', selftest=[])
+for _t, _c in (('d3', ''), ('nr', '  n = r;'), ('dr', '  d = r;'), ('nd', '  d = n;')):
+    _v = dict(_tr); _v['name'] = 'mpz_tdiv_r_' + _t
+    _v['harness'] = _tr['harness'].replace('ALIASBLOCK', _c).replace('h_mpz_tdiv_r (void)', 'h_mpz_tdiv_r_%s (void)' % _t)
+    if _t == 'dr':
+        _v['selftest'] = [('__gmpz_tdiv_r', r'if \(dp == rp\)', 'if (0)')]
+    if _t == 'nr':
+        _v['tier'] = 'quick'; _v['selftest'] = [('__gmpz_tdiv_r', r'if \(np == rp\)', 'if (0)')]
+    UNITS.append(_v)
+for _u in UNITS:
+    if _u['name'] == 'mpz_tdiv_qr_nr':
+        _u['tier'] = 'quick'
